@@ -5,6 +5,7 @@ import OpenHTF.Driver.C07
 import OpenHTF.Driver.Exec
 import OpenHTF.Driver.C05
 import OpenHTF.Driver.C02
+import OpenHTF.Driver.C01
 open OpenHTF.Driver
 
 def stripNl (s : String) : String :=
@@ -19,6 +20,7 @@ def dispatch (line : String) : String :=
   | "EX" :: ts => ExecIO.handleEX ts
   | "C05" :: ts => C05.handle ts
   | "C02" :: ts => C02.handle ts
+  | "C01" :: ts => C01.handle ts
   | "C03" :: ts => C02.handleC03 ts
   | _ => reply false false "unknown-property"
 
